@@ -119,6 +119,8 @@ def run_impl(case):
         out["auc"] = enc(float(s.auc()))
         out["auc_aff"] = enc(float(af.auc()))
         out["auc_neg"] = enc(float(ng.auc()))
+        # the swapped object's (FNR, TNR) curve is the original (FPR, TPR) curve
+        out["auc_swap_axes"] = [enc(float(sw.auc(x_axis="fnr", y_axis="tnr"))), enc(float(sw.auc(lower=0.25, upper=0.75, x_axis="fnr", y_axis="tnr")))]
         out["pauc"] = enc(float(s.auc(lower=0.25, upper=0.75)))
         out["pauc_aff"] = enc(float(af.auc(lower=0.25, upper=0.75)))
     if case.get("groups") and len(pos) and len(neg):
@@ -211,6 +213,10 @@ def oracle(case, res):
         fails.append(("C08/swap-flags", f"swapped object has flags/easy counts {r['swap_flags']}"))
     if sorted(F(x) for x in r["swap_pos"]) != sorted(F(x) for x in case["neg"]) or sorted(F(x) for x in r["swap_neg"]) != sorted(F(x) for x in case["pos"]):
         fails.append(("C08/swap-scores", "swapped object does not hold the other class's scores"))
+    if "auc_swap_axes" in r:
+        for got, want, what in ((r["auc_swap_axes"][0], r["auc"], "full"), (r["auc_swap_axes"][1], r["pauc"], "over [0.25, 0.75]")):
+            if abs(F(got) - F(want)) > Fraction(1, 10 ** 12):
+                fails.append((f"C08/swap-auc/{cfg}", f"AUC {what}: original (FPR, TPR) gives {float(F(want))}, the swapped object's (FNR, TNR) curve gives {float(F(got))}"))
     if "auc_u8" in r and r["auc_u8"] != r["auc_f8"]:
         fails.append((f"C08/uint8-auc/{cfg}", f"auc(), auc(0.25, 0.75), swap().auc() of the scores held as a uint8 array = {[float(F(v)) for v in r['auc_u8']]}, "
                       f"of the same scores as float64 = {[float(F(v)) for v in r['auc_f8']]} (the identity map must not change the AUC)"))
